@@ -45,7 +45,7 @@
 (declare-fun bytes2str (Slice_Int) GoString)
 (declare-fun str2bytes (GoString) Slice_Int)
 (assert (forall ((s GoString)) (! (= (bytes2str (str2bytes s)) s) :pattern ((str2bytes s)))))
-(assert (forall ((b Slice_Int)) (! (= (strlen (bytes2str b)) (slen_Int b)) :pattern ((bytes2str b)))))
+(assert (forall ((b Slice_Int)) (! (=> (>= (slen_Int b) 0) (= (strlen (bytes2str b)) (slen_Int b))) :pattern ((bytes2str b)))))
 (assert (forall ((s GoString)) (! (and (= (slen_Int (str2bytes s)) (strlen s)) (not (snil_Int (str2bytes s)))) :pattern ((str2bytes s)))))
 
 ; @block be16at requires Slice_Int
@@ -99,7 +99,7 @@
 (declare-fun hexok (GoString) Bool)
 (declare-fun unhex (GoString) Slice_Int)
 (assert (forall ((s GoString)) (! (=> (hexok s) (and (= (* 2 (slen_Int (unhex s))) (strlen s)) (not (snil_Int (unhex s))))) :pattern ((unhex s)))))
-(assert (forall ((b Slice_Int)) (! (and (hexok (hexs b)) (= (strlen (hexs b)) (* 2 (slen_Int b))) (= (slen_Int (unhex (hexs b))) (slen_Int b))) :pattern ((hexs b)))))
+(assert (forall ((b Slice_Int)) (! (=> (>= (slen_Int b) 0) (and (hexok (hexs b)) (= (strlen (hexs b)) (* 2 (slen_Int b))) (= (slen_Int (unhex (hexs b))) (slen_Int b)))) :pattern ((hexs b)))))
 (assert (forall ((b Slice_Int) (i Int)) (! (=> (and (<= 0 i) (< i (slen_Int b))) (= (select (sarr_Int (unhex (hexs b))) i) (select (sarr_Int b) i))) :pattern ((select (sarr_Int (unhex (hexs b))) i)))))
 
 ; @block b58 requires GoString Slice_Int
